@@ -180,3 +180,8 @@ package swamp
 //@   property C26 C07
 //@   modifies *
 //@   ensures[negative_paging_rejected] from < 0 || limit < 0 ==> err != nil
+
+// Representation invariant of a swamp (established by New): the ordered indexes exist and the
+// ascending / descending index of one attribute are different objects.
+//@ type swamp
+//@   invariant[indexes] self.keyBeaconASC != nil && self.keyBeaconDESC != nil && ipay(self.keyBeaconASC) != ipay(self.keyBeaconDESC) && self.creationTimeBeaconASC != nil && self.creationTimeBeaconDESC != nil && ipay(self.creationTimeBeaconASC) != ipay(self.creationTimeBeaconDESC) && self.updateTimeBeaconASC != nil && self.updateTimeBeaconDESC != nil && ipay(self.updateTimeBeaconASC) != ipay(self.updateTimeBeaconDESC) && self.expirationTimeBeaconASC != nil && self.expirationTimeBeaconDESC != nil && ipay(self.expirationTimeBeaconASC) != ipay(self.expirationTimeBeaconDESC) && self.valueBeaconASC != nil && self.valueBeaconDESC != nil && ipay(self.valueBeaconASC) != ipay(self.valueBeaconDESC)
